@@ -80,7 +80,7 @@ static Kind kind_of_tag(const std::string & t)
   }
 const char * kind_name(Kind k)
   {
-  static const char * n[] = { "none", "fixed", "int8", "int16", "int32", "int64", "uint8", "uint16", "uint32", "uint64", "long-long", "unsigned-long-long", "float-bits", "double-bits", "shift-count", "int32-angle", "index<=360", "index<=255", "count<=64" };
+  static const char * n[] = { "none", "fixed", "int8", "int16", "int32", "int64", "uint8", "uint16", "uint32", "uint64", "long-long", "unsigned-long-long", "float-bits", "double-bits", "shift-count", "int32-angle", "index<=360", "index<=255", "count<=64", "int128-encoded" };
   return n[k];
   }
 bool entry_domain(const std::string & n, Domain & d)
@@ -94,6 +94,8 @@ bool entry_domain(const std::string & n, Domain & d)
   if(unary_fix.count(n)) { d = { K_FIX, K_NONE }; return true; }
   if(binary_fix.count(n)) { d = { K_FIX, K_FIX }; return true; }
   if(n == "shl" || n == "shr") { d = { K_FIX, K_SHIFT }; return true; }
+  if(n == "i128_supported") { d = { K_NONE, K_NONE }; return true; }
+  if(n == "div_fi128" || n == "diveq_fi128" || n == "add_fi128" || n == "ctor_i128") { d = { K_FIX, K_I128 }; return true; }
   if(n == "add_accum" || n == "sub_accum") { d = { K_FIX, K_COUNT }; return true; }
   if(n == "sin_angle_aprox" || n == "cos_angle_aprox") { d = { K_ANGLE, K_NONE }; return true; }
   if(n == "sin_angle_tab" || n == "cos_angle_tab") { d = { K_IDX361, K_NONE }; return true; }
@@ -132,6 +134,10 @@ const std::vector<int64_t> & boundary(Kind k)
     case K_IDX361: for(int64_t i = 0; i <= 360; ++i) v.push_back(i); break;
     case K_IDX256: for(int64_t i = 0; i <= 255; ++i) v.push_back(i); break;
     case K_COUNT: for(int64_t i = 0; i <= 64; ++i) v.push_back(i); break;
+    case K_I128: // (mantissa << 8) | shift
+      for(int64_t m : { (int64_t)0, (int64_t)1, (int64_t)-1, (int64_t)2, (int64_t)-2, (int64_t)3, (int64_t)65536, (int64_t)2147483647, (int64_t)-2147483647, (int64_t)2147483648ll, ((int64_t)1 << 54) - 1, -(((int64_t)1 << 54) - 1), (int64_t)1000003 })
+        for(int64_t sh : { 0, 1, 16, 31, 32, 33, 47, 62, 63, 64, 65, 70 }) v.push_back(m * 256 + sh);
+      break;
     case K_F32:
       for(uint32_t sgn = 0; sgn < 2; ++sgn) for(uint32_t e = 0; e < 256; ++e) for(uint32_t m : { 0u, 1u, 0x400000u, 0x7fffffu, 0x7fff80u }) v.push_back((int64_t)((sgn << 31) | (e << 23) | m));
       for(float f : { 360.0f, -360.0f, 90.0f, 2147483647.0f, 2147483520.0f, -2147483648.0f, 32767.99f, 0.5f / 65536.0f }) v.push_back(f2bits(f));
@@ -172,6 +178,7 @@ int64_t random_of_kind(Rng & r, Kind k)
     case K_IDX361: return r.range(0, 360);
     case K_IDX256: return r.range(0, 255);
     case K_COUNT: return r.range(0, 64);
+    case K_I128: return (r.logu(54) * 256) + (int64_t)((r.below(3) == 0) ? 64 + r.below(7) : r.below(71));
     case K_F32: return r.below(2) ? (int64_t)(r.next() & 0xffffffffu) : f2bits((float)((double)r.logu(48) / 65536.0));
     case K_F64: return r.below(2) ? (int64_t)r.next() : d2bits((double)r.logu(62) / 65536.0);
     default: return random_of_type(r, *inttype_of(k));
@@ -187,6 +194,7 @@ bool in_domain(Kind k, int64_t x)
     case K_IDX361: return x >= 0 && x <= 360;
     case K_IDX256: return x >= 0 && x <= 255;
     case K_COUNT: return x >= 0 && x <= 64;
+    case K_I128: return (x & 0x7f) <= 70 && (x & 0x80) == 0;
     default: return true;                                    // integral kinds are cast to the type by the wrapper, float kinds are bit patterns
     }
   }
@@ -204,4 +212,53 @@ int64_t related_fix(Rng & r, int64_t a)
     case 6: return clamp_finite(-(i128)a + r.range(-3, 3));
     default: return r.range(-4, 4);
     }
+  }
+
+// ------------------------------------------------------------------------------------------ exact factor pairs
+static uint64_t mulmod(uint64_t a, uint64_t b, uint64_t m) { return (uint64_t)((u128)a * b % m); }
+static uint64_t powmod(uint64_t a, uint64_t e, uint64_t m) { uint64_t r = 1; a %= m; while(e) { if(e & 1) r = mulmod(r, a, m); a = mulmod(a, a, m); e >>= 1; } return r; }
+static bool is_prime64(uint64_t n)
+  {
+  if(n < 2) return false;
+  for(uint64_t p : { 2ull, 3ull, 5ull, 7ull, 11ull, 13ull, 17ull, 19ull, 23ull, 29ull, 31ull, 37ull }) { if(n % p == 0) return n == p; }
+  uint64_t d = n - 1; int s = 0; while((d & 1) == 0) { d >>= 1; ++s; }
+  for(uint64_t a : { 2ull, 3ull, 5ull, 7ull, 11ull, 13ull, 17ull, 19ull, 23ull, 29ull, 31ull, 37ull })
+    {
+    uint64_t x = powmod(a, d, n); if(x == 1 || x == n - 1) continue;
+    bool comp = true; for(int i = 1; i < s && comp; ++i) { x = mulmod(x, x, n); if(x == n - 1) comp = false; }
+    if(comp) return false;
+    }
+  return true;
+  }
+static uint64_t gcd64(uint64_t a, uint64_t b) { while(b) { uint64_t t = a % b; a = b; b = t; } return a; }
+static uint64_t pollard(uint64_t n)
+  {
+  if((n & 1) == 0) return 2;
+  for(uint64_t c = 1;; ++c)
+    {
+    uint64_t x = 2, y = 2, d = 1;
+    while(d == 1) { x = (mulmod(x, x, n) + c) % n; y = (mulmod(y, y, n) + c) % n; y = (mulmod(y, y, n) + c) % n; d = gcd64(x > y ? x - y : y - x, n); }
+    if(d != n) return d;
+    }
+  }
+static void factor(uint64_t n, std::map<uint64_t, int> & f)
+  {
+  if(n == 1) return;
+  if(is_prime64(n)) { ++f[n]; return; }
+  uint64_t d = pollard(n); factor(d, f); factor(n / d, f);
+  }
+std::vector<uint64_t> divisors_of(uint64_t n)
+  {
+  std::vector<uint64_t> ds{ 1 };
+  if(n == 0) return ds;
+  std::map<uint64_t, int> f;
+  for(uint64_t p = 2; p < 1000 && n > 1; ++p) while(n % p == 0) { ++f[p]; n /= p; }
+  factor(n, f);
+  for(auto & kv : f)
+    {
+    size_t sz = ds.size(); uint64_t pw = 1;
+    for(int e = 1; e <= kv.second; ++e) { pw *= kv.first; for(size_t i = 0; i < sz; ++i) ds.push_back(ds[i] * pw); }
+    }
+  std::sort(ds.begin(), ds.end());
+  return ds;
   }
